@@ -585,8 +585,7 @@ func (ex *Exec) loopNames(st *State, fr *Frame, lp *Loop) map[string]Value {
 			}
 		}
 		alias(base.Allocs, curAllocs)
-		k := fmt.Sprintf("%d", lp.Ordinal)
-		alias(base.Phis[k], curPhis[k])
+		alias(base.Phis[fmt.Sprintf("%d", baselineLoopOrdinal(fr.Fn, lp.Ordinal))], curPhis[fmt.Sprintf("%d", lp.Ordinal)])
 	}
 	return ex.freeVarNames(st, fr, names)
 }
@@ -601,7 +600,7 @@ func (ex *Exec) loopInvs(fr *Frame, lp *Loop) []*Clause {
 	}
 	var out []*Clause
 	for _, c := range ct.Invs {
-		if c.Loop == lp.Ordinal {
+		if c.Loop == baselineLoopOrdinal(fr.Fn, lp.Ordinal) {
 			out = append(out, c)
 		}
 	}
@@ -626,7 +625,7 @@ func (ex *Exec) checkInvariants(st *State, fr *Frame, lp *Loop, phase string) {
 		if label == "" {
 			label = fmt.Sprintf("#%d", i)
 		}
-		ob := &Obligation{Name: fmt.Sprintf("%s/inv#%d/%s/%s", ex.fnName(fr.Fn), lp.Ordinal, label, phase), Kind: "inv", Goal: t, Props: c.Props, Fn: fr.Fn.String()}
+		ob := &Obligation{Name: fmt.Sprintf("%s/inv#%d/%s/%s", ex.fnName(fr.Fn), baselineLoopOrdinal(fr.Fn, lp.Ordinal), label, phase), Kind: "inv", Goal: t, Props: c.Props, Fn: fr.Fn.String()}
 		ex.record(st, ob)
 		st.Assume(t)
 	}
